@@ -30,6 +30,11 @@ WHAT IS PROVED (all kernel-checked, axioms `propext`, `Classical.choice`, `Quot.
    `pairing_is_reduced_ate_checked`); consequently the textbook value at the generators is the published
    RELIC value (`reducedAte_generators`).
 
+5. Denominator elimination.  The Miller function WITH the vertical lines, `textbookMillerFull`, differs
+   from `textbookMiller` by a non-zero element of `Fq6` when `x_P ≠ 0` (`denominator_elimination`), so
+   `reducedAteFull = reducedAte`; for `P ∈ G1`, `Q ∈ G2`: `pairing P Q = some (reducedAteFull P Q)`
+   (`pairing_is_reduced_ate_full`).
+
 SIDE CONDITIONS, all explicit: `P`, `Q` finite; `Q` on `E'`; `[j]Q ≠ 0` for `0 < j ≤ |x| + 1` (no
 exceptional case of the affine formulas: vertical tangent or chord) - implied by `Q ≠ 0`, `[r]Q = 0`;
 `P` on `E` is used only to get `y_P ≠ 0` (`E(Fq)` has no 2-torsion: `-4` is not a cube), which makes
@@ -41,6 +46,7 @@ not a theorem about divisors.
 -/
 import PP.Proofs.Lines2
 import PP.Proofs.Lines3
+import PP.Proofs.Lines4
 import PP.Props.C03
 import PP.Props.C07
 
@@ -216,6 +222,29 @@ theorem reducedAte_generators :
     C07.g1Generator_inSub.1 rfl C07.g2Generator_inSub.1 rfl C07.g2Generator_killed
   rw [C03.pairing_generators] at h
   exact (Option.some.inj h).symm
+
+/-! ## 5. with the vertical lines (denominator elimination) -/
+
+/-- the Miller function without verticals is the one with verticals times a non-zero element of `Fq6`
+    (`x_P ≠ 0`) -/
+theorem denominator_elimination (P : Fq × Fq) (Q : Fq2 × Fq2) (hx : P.1 ≠ 0) :
+    ∃ a : Fq6, a ≠ 0 ∧ textbookMiller P Q = textbookMillerFull P Q * Fq12.ofFq6 a := by
+  obtain ⟨d, ⟨a, ha, rfl⟩, h⟩ := textbookMiller_eq_full P Q hx
+  exact ⟨a, ha, h⟩
+
+theorem reduced_ate_full_eq (P : Fq × Fq) (Q : Fq2 × Fq2) (hx : P.1 ≠ 0) :
+    reducedAteFull P Q = reducedAte P Q := reducedAteFull_eq P Q hx
+
+/-- **the pairing is the reduced ate pairing computed from the Miller function with tangents, chords
+    and verticals**, for `P ∈ G1`, `Q ∈ G2` (the model's own `in_subgroup` checks), both finite -/
+theorem pairing_is_reduced_ate_full (p : Aff Fq) (q : Aff Fq2)
+    (hp : Aff.inSubgroup g1Codec.b p = true) (hpi : p.infinity = false)
+    (hq : Aff.inSubgroup g2Codec.b q = true) (hqi : q.infinity = false) :
+    pairing p q = some (reducedAteFull (p.x, p.y) (q.x, q.y)) := by
+  have hp' := (Aff.inSubgroup_iff_inSub p).mp hp
+  have hq' := (Aff.inSubgroup_iff_inSub q).mp hq
+  rw [reducedAteFull_eq _ _ (g1_x_ne_zero hp'.1 hpi hp'.2)]
+  exact pairing_is_reduced_ate_order_r p q hp'.1 hpi hq'.1 hqi hq'.2
 
 /-! ## non-vacuity and cross-checks -/
 
